@@ -368,6 +368,23 @@ def _simplify_events(events, hedger_id):
     return out
 
 
+def _canon_epoch(evs):
+    """canonical form of one epoch's event trace under the commutations that cannot change the result: clearing the gradients commutes
+    with everything before `backward` (mode switches, simulation, the forward evaluation) and repeated clears collapse; so every
+    zero_grad found before the (first) backward is moved right behind the first `train` event (or to the front) as ONE event."""
+    evs = list(evs)
+    ib = next((k for k, e in enumerate(evs) if e[0] == 'backward'), None)
+    if ib is None:
+        return evs
+    zs = [e for e in evs[:ib] if e[0] == 'zero_grad']
+    if not zs or len(set(zs)) != 1:
+        return evs
+    head = [e for e in evs[:ib] if e[0] != 'zero_grad']
+    it = next((k for k, e in enumerate(head) if e[0] == 'train'), -1)
+    head = head[:it + 1] + [zs[0]] + head[it + 1:]
+    return head + evs[ib:]
+
+
 def fit_epoch_ob(validation, n_times):
     # n_times = 'all': symbolic n_times, with ensemble_mean replaced by its contract (TR/ensemble_mean/loop[all n_times]):
     # a ghost event ('ensemble', n_times) followed by ONE arbitrary call of the function handed over
@@ -432,7 +449,7 @@ def fit_epoch_ob(validation, n_times):
                     if validation:
                         E += [('eval',)] + [('simulate', NP, init, False), ('criterion', False, False)] * n_times
                 # drop events before the loop (none expected: optimizer instance passed in)
-                got = [e for e in evs]
+                got = _canon_epoch([e for e in evs])
                 sample['events'] = [str(e) for e in got][:14]
                 if got != E:
                     return Verdict('refuted', 'ghost event trace', time.time() - t0, 'one epoch performs %s; documented protocol: %s' % ([e[0] for e in got], [e[0] for e in E]),
